@@ -211,6 +211,12 @@ func concretePath(class string, rng *rand.Rand) string {
 		return "/" + strings.Repeat("segment-"+t+"/", 200) + "end"
 	case "semicolon-path":
 		return "/matrix;v=1/" + t
+	case "trailing-slash":
+		return "/dir/" + t + "/"
+	case "pct-lowerhex":
+		return "/caf%c3%a9/%7e" + t
+	case "colon-at":
+		return "/a:b@c/" + t + ":8080"
 	}
 	return "/plain/" + t
 }
@@ -230,6 +236,10 @@ func concreteQuery(class string, rng *rand.Rand) string {
 		return "?q=a+b+" + t
 	case "valueless":
 		return "?flag&other=" + t
+	case "qmark-inside":
+		return "?a=b?c&d=" + t + "?"
+	case "at-colon-slash":
+		return "?next=http://u:p@other.example:9/" + t
 	}
 	return ""
 }
@@ -240,6 +250,10 @@ func concreteHost(class string) string {
 		return "svc.example:8443"
 	case "ip":
 		return "10.1.2.3"
+	case "ipv6":
+		return "[2001:db8::1]:8080"
+	case "uppercase":
+		return "SVC.Example"
 	}
 	return "svc.example"
 }
@@ -290,6 +304,14 @@ func concreteReqHeader(class string, rng *rand.Rand, slot int) []hpair {
 		return []hpair{{"Content-Type", "application/x-" + t}}
 	case "range":
 		return []hpair{{"Range", "bytes=0-" + strconv.Itoa(rng.Intn(1000))}}
+	case "many":
+		var hs []hpair
+		for k := 0; k < 40; k++ {
+			hs = append(hs, hpair{fmt.Sprintf("X-Many-%d-%02d", slot, k), fmt.Sprintf("v%d-%s", k, t)})
+		}
+		return hs
+	case "forwarded":
+		return []hpair{{"X-Forwarded-For", "203.0.113." + strconv.Itoa(1+rng.Intn(200))}, {"Forwarded", "for=192.0.2.60;proto=http;by=203.0.113.43"}}
 	case "if-none-match":
 		return []hpair{{"If-None-Match", "\"" + t + "\""}}
 	case "origin":
@@ -473,6 +495,20 @@ func concreteRespHeader(class string, rng *rand.Rand, slot int) []hpair {
 		return []hpair{{"Proxy-Authenticate", "Basic realm=\"" + t + "\""}}
 	case "hop-upgrade":
 		return []hpair{{"Upgrade", "h2c"}}
+	case "date":
+		return []hpair{{"Date", "Tue, 15 Nov 1994 08:12:31 GMT"}}
+	case "server":
+		return []hpair{{"Server", "backend/" + t}}
+	case "link":
+		return []hpair{{"Link", "</a/" + t + ">; rel=preload"}, {"Link", "</b>; rel=prefetch"}}
+	case "via":
+		return []hpair{{"Via", "1.1 inner-" + t}}
+	case "age":
+		return []hpair{{"Age", strconv.Itoa(rng.Intn(5000))}}
+	case "emptyval":
+		return []hpair{{name, ""}}
+	case "mixedcase":
+		return []hpair{{"x-rEsP-" + randToken(rng, 3), "v-" + t}}
 	case "etag":
 		return []hpair{{"Etag", "\"" + t + "\""}}
 	case "vary":
